@@ -52,8 +52,12 @@ func (fs *FS) Sub(dir string) (hackpadfs.FS, error) {
 	if !hackpadfs.ValidPath(dir) {
 		return nil, &hackpadfs.PathError{Op: "sub", Path: dir, Err: hackpadfs.ErrInvalid}
 	}
+	root := path.Join(fs.root, dir)
+	if root == "." {
+		root = "" // Sub(".") of the top-level FS is the same FS
+	}
 	return &FS{
-		root:       path.Join(fs.root, dir),
+		root:       root,
 		volumeName: fs.volumeName,
 	}, nil
 }
